@@ -234,9 +234,13 @@ class Soft:
     an obligation the shape rule cannot discharge is then a note, not an accusation - the code merely left the shapes the
     rule knows.  Successful obligations are counted as usual."""
 
-    def __init__(self, ctx, by):
+    def __init__(self, ctx, by, only=None):
         object.__setattr__(self, "_c", ctx)
         object.__setattr__(self, "_by", by)
+        object.__setattr__(self, "_only", only)  # soften these rule ids only (None = all)
+
+    def _hard(self, rid):
+        return self._only is not None and rid not in self._only
 
     def __getattr__(self, k):
         return getattr(self._c, k)
@@ -250,6 +254,8 @@ class Soft:
         self._c.abstain(rid, "%s: shape not recognised (%s); this clause is decided exactly by %s" % (instance, str(reason)[:90], self._by), where)
 
     def check(self, rid, cond, key, where, fn, instance, reason, expected=None, found=None, sample=None):
+        if self._hard(rid):
+            return self._c.check(rid, cond, key, where, fn, instance, reason, expected=expected, found=found, sample=sample)
         if cond:
             self._c.ok(rid, sample)
         else:
@@ -257,20 +263,26 @@ class Soft:
         return cond
 
     def fail(self, rid, key, where, fn, instance, reason, expected=None, found=None, path=None):
+        if self._hard(rid):
+            return self._c.fail(rid, key, where, fn, instance, reason, expected=expected, found=found, path=path)
         self._note(rid, instance, reason, where)
 
     def anchor_missing(self, rid, what):
+        if self._hard(rid):
+            return self._c.anchor_missing(rid, what)
         self._note(rid, what, "anchor not found", None)
 
     def floor(self, rid, what, found, minimum):
+        if self._hard(rid):
+            return self._c.floor(rid, what, found, minimum)
         if found >= minimum:
             self._c.ok(rid)
         else:
             self._note(rid, what, "matched %d of %d sites" % (found, minimum), None)
 
 
-def soft_if(ctx, decided, by):
-    return Soft(ctx, by) if decided else ctx
+def soft_if(ctx, decided, by, only=None):
+    return Soft(ctx, by, only) if decided else ctx
 
 
 def _undecided_fold(found):
